@@ -33,6 +33,8 @@ def _init_path_rule(A, qual, guarded):
 
 
 def check(A):
+    from . import srvrules as R_
+    R_.middleware_passthrough_rule(A, 'C20')
     # ------------------------------------------------------------------ WSGIApp
     _init_path_rule(A, 'middleware.WSGIApp', False)
     _init_path_rule(A, 'async_drivers.asgi.ASGIApp', True)
